@@ -612,8 +612,9 @@ def hesc(s):
     return s.replace("\\", "\\\\").replace("\n", "\\n").replace("\t", "\\t").replace("\r", "\\r")
 
 
-def mk_case(i, op, args, rng=None, maxans=MAXANS, extra=None):
-    strings = True if rng is None else rng.random() < 0.6
+def mk_case(i, op, args, rng=None, maxans=MAXANS, extra=None, strings=None):
+    if strings is None:
+        strings = True if rng is None else rng.random() < 0.6
     c = {"id": "c%d" % i, "op": op, "args": [to_canon(a) for a in args], "goal": goal_text(op, args, strings), "max": maxans}
     if extra:
         c.update(extra)
@@ -755,7 +756,7 @@ def build_cases(rng, tier):
         cases.append(mk_case(len(cases), op, args, rng, extra=extra, **kw))
 
     quick = tier == "quick"
-    n = 350 if quick else 12000
+    n = 280 if quick else 2500
     for _ in range(n):
         add("atom_length", gen_atom_length(rng))
         add("atom_chars", gen_atom_text(rng, False))
@@ -813,8 +814,11 @@ def build_cases(rng, tier):
         add("atom_length", [A(s), V('N')])
         add("atom_chars", [A(s), V('L')])
         add("atom_codes", [A(s), V('L')])
-        add("atom_chars", [V('X'), chars(s)])
-        add("atom_codes", [V('X'), codes(s)])
+        # explicit list syntax only up to 5000 elements: a 70000-element list literal in the query text
+        # aborts the process (reader recursion; noted in notes/findings-misc.md, not C22's subject)
+        add("atom_chars", [V('X'), chars(s)], strings=True if ln > 5000 else None)
+        if ln <= 5000:
+            add("atom_codes", [V('X'), codes(s)])
         k = ln // 3
         add("atom_concat", [A(s[:k]), A(s[k:]), V('Z')])
         if ln <= 300:
@@ -830,7 +834,7 @@ def build_cases(rng, tier):
     # char_type: every ASCII character against every class (all answers, in order)
     for cp in range(128):
         add("char_type", [A(chr(cp)), V('T')])
-    for ch in STABLE_CASE + OTHER_NONASCII if not quick else rng.sample(STABLE_CASE, 40) + OTHER_NONASCII:
+    for ch in STABLE_CASE + OTHER_NONASCII if not quick else rng.sample(STABLE_CASE, 30) + OTHER_NONASCII:
         add("char_type", [A(ch), V('T')], extra={"info": "from-impl", "char": ch})
     # enumeration of the characters of a class: complete for the classes that do not need Unicode tables
     full = INFO_FREE if not quick else ["octet"] + rng.sample([t for t in INFO_FREE if t != "octet"], 2)
